@@ -43,6 +43,7 @@ type Exec struct {
 	memo              map[string]*memoEntry
 	groups            map[string][][]Term
 	regions           map[*ssa.BasicBlock]*joinRegion
+	batchN            int
 	memoHits          int
 	noMemo            bool
 	freshRes          map[string]int // symbols of results of fresh callees -> creation number
